@@ -1,0 +1,19 @@
+//go:build verif
+
+package exptypes
+
+// Contracts for the govc verifier (/verif). Comment-only file: it contains no
+// executable code and is compiled only with the build tag `verif`.
+
+// Schema-guided decoding of entities and values: no panic on any document.
+//@ sweep C10 json.go wellformed
+// A schema is required (a nil *resolved.Schema is a caller error, not an input).
+//@ func coerceEntity
+//@   requires schema != nil
+//@ func (Entity) UnmarshalJSONWithSchema
+//@   requires schema != nil
+//@ func (EntityMap) UnmarshalJSONWithSchema
+//@   requires schema != nil
+//@ func coerceRecord
+//@   results r
+//@   ensures (v is types.Record) ==> (r is types.Record)
